@@ -291,10 +291,10 @@ pub fn run(args: &Args) -> i32 {
         let mut rng = Rng::new(args.case_seed(c));
         #[cfg(feature = "parallel")]
         if c % 8 == 7 {
-            case_async(&mut rng, &pool, &mut rep, c);
+            guard_case(&mut rep, c, |rep| case_async(&mut rng, &pool, rep, c));
             continue;
         }
-        case(&mut rng, &pool, &mut rep, c);
+        guard_case(&mut rep, c, |rep| case(&mut rng, &pool, rep, c));
     }
     rep.finish();
     0
